@@ -127,7 +127,8 @@ def read_keys(n):
 
 
 def iter_keys(n):
-    return [[0, None, 1], [1, None, 2], [0, n, 1], [n - 1, -1, -1] if n else [0, 0, 1], [0, n + 1, 2]]
+    return [[0, None, 1], [1, None, 2], [0, n, 1], [n - 1, -1, -1] if n else [0, 0, 1], [0, n + 1, 2],
+            [0, None, 0], [-2, None, 1], [n - 1, -n - 1, -2], [2, 1, 1], [-n, 0, 1], [1, n + 3, 3]]
 
 
 def run_history(case, d, want_regen=True):
